@@ -356,6 +356,17 @@ def model_est(rec, bits, word):
     return (1 - 2 * s) * 3 ** k
 
 
+def standard_order(case):
+    """True iff QuantumScript.map_to_standard_wires leaves the tape alone as far as the operations go:
+    the operation wires, in order of first use, are 0, 1, 2, ..."""
+    seen = []
+    for _, ws, _ in case["ops"]:
+        for w in ws:
+            if w not in seen:
+                seen.append(w)
+    return seen == list(range(len(seen)))
+
+
 def direct_device(case, o):
     fails, info = [], {}
     n, T = len(case["wires"]), case["shots"]
@@ -407,6 +418,8 @@ def direct_device(case, o):
         for nm in ("shadow_expval", "shadow_expval_from_record"):
             if abs(o[nm][k] - exact) > bound:
                 fails.append(f"{nm}(H_{k}) = {o[nm][k]} but exact = {exact} (bound {bound:.4g})")
+                if nm == "shadow_expval" and abs(o["shadow_expval_from_record"][k] - exact) <= bound and not standard_order(case):
+                    info["remap_suspect"] = True
         # the estimate from the record must be the model's mean of the recorded rows
         mean = sum(sum(Fr(c) * model_est(r, b, wd) for c, wd in words) for r, b in zip(recipes, bits)) / T
         if abs(float(mean) - o["shadow_expval_from_record"][k]) > 1e-9:
@@ -416,7 +429,6 @@ def direct_device(case, o):
 
 # ------------------------------------------------------------------ run
 def run(ctx):
-    ctx.coq_props()
     rng = ctx.rng
     quick = ctx.tier == "quick"
     rp = getattr(ctx, "replay", None)
@@ -441,18 +453,30 @@ def run(ctx):
                           "ops": [["Hadamard", [0], None], ["CNOT", [0, 1], None], ["CNOT", [1, 2], None]],
                           "hams": [[[1.0, [[2, 0], [0, 0], [1, 0]]]], [[0.5, [[0, 2], [1, 2]]], [-1.0, [[2, 1], [0, 1], [1, 0]]]]],
                           "styles": ["bare", "hamiltonian"]})
-    res = ctx.run_impl("c60_impl.py", {"enum": enum, "device": device, "export": True})
+        # regression: first operation acts on wires (2, 0) -> the simulator maps the tape to standard wires
+        device[1].update({"dev_wires": [0, 1, 2], "wires": [0], "clifford": True,
+                          "ops": [["CNOT", [2, 0], None], ["PauliX", [0], None], ["Hadamard", [0], None]],
+                          "hams": [[[1.0, [[0, 0]]]], [[0.5, [[0, 2]]], [-1.0, [[0, 0]]]]],
+                          "styles": ["bare", "sum"]})
+    from concurrent.futures import ThreadPoolExecutor
+    with ThreadPoolExecutor(max_workers=1) as pool:       # the implementation runs while Coq re-checks the theorems
+        fut = pool.submit(ctx.run_impl, "c60_impl.py", {"enum": enum, "device": device, "export": True})
+        ctx.coq_props()
+        res = fut.result()
 
+    terms, owners = [], []          # Gallina AnyCase terms and what to report when one fails
     # ---- (A) full enumerations: exact correspondence with the model + exact unbiasedness
-    terms, rows_total, hist = [], 0, {"n1": 0, "n2": 0, "n3": 0, "nonhermitian": 0, "H_total": 0, "bare": 0,
-                                      "hamiltonian": 0, "sum": 0, "identity_terms": 0, "permuted_wire_map": 0}
+    rows_total, hist = 0, {"n1": 0, "n2": 0, "n3": 0, "nonhermitian": 0, "H_total": 0, "bare": 0,
+                           "hamiltonian": 0, "sum": 0, "identity_terms": 0, "permuted_wire_map": 0}
     for case, o in zip(enum, res.get("enum", [])):
         wcode = {w: (w if isinstance(w, int) else 1000 + i) for i, w in enumerate(case["wire_map"])}
         term, ok = g_enum_case(case, o, wcode)
-        terms.append(term)
         key = json.dumps({k: case[k] for k in ("n", "wire_map", "hams", "rho")}, sort_keys=True)
         key = hashlib.sha1(key.encode()).hexdigest()[:12]
-        case["_key"] = key
+        terms.append(f"CEnum {term}")
+        owners.append(("corr:enum:" + key, {"case": case},
+                       "ClassicalShadow snapshots/estimates differ from the proved model (or their exact "
+                       "probability-weighted average differs from rho / tr(rho H)) on a full enumeration"))
         if not ok:
             ctx.violation("direct:enum-dyadic:" + key, {"case": case},
                           what="a snapshot entry is not an integer multiple of 2^-n (model: entries of (x)(3 Pi - I))")
@@ -468,12 +492,6 @@ def run(ctx):
             hist[st] += 1
             hist["identity_terms"] += sum(1 for _, w in h if not w)
         hist["permuted_wire_map"] += case["wire_map"] != sorted(case["wire_map"], key=str)
-    if terms:
-        bad = ctx.coq_eval_cases("enum", "From PLV Require Import Num.ShadowsModel.", terms, "check_case", chunk=2)
-        for i in bad:
-            ctx.violation("corr:enum:" + enum[i]["_key"], {"case": enum[i]}, found_input=True,
-                          what="ClassicalShadow snapshots/estimates differ from the proved model (or their exact "
-                               "probability-weighted average differs from rho / tr(rho H)) on a full enumeration")
 
     # ---- (B) exported matrices
     ex = res.get("export", {})
@@ -485,7 +503,7 @@ def run(ctx):
         obs_i, ok = [], True
         for m in ex["observables"]:
             mi, ok1 = int_matrix(m, 1); ok &= ok1; obs_i.append(mi)
-        so, ok1 = [], True
+        so = []
         for m in ex["stacks"][0]:
             mi, ok2 = int_matrix(m, 1); ok &= ok2; so.append(mi)
         if so != obs_i:
@@ -504,27 +522,58 @@ def run(ctx):
             if np.max(np.abs(D.conj().T @ D - np.eye(2))) > 1e-9:
                 ok = False
             projs.append(pb)
-        term = f"({glist(obs_i, g_mat_int)}, {glist(projs, lambda pb: glist(pb, g_mat_int))})"
-        bad = ctx.coq_eval_cases("rot", "From PLV Require Import Num.ShadowsModel.", [term], "check_rot")
-        if bad or not ok:
-            ctx.violation("corr:exported-matrices", {"exported": ex}, found_input=True,
-                          what="observables of local_snapshots / diagonalisers of process_state_with_shots differ from the model's "
-                               "X,Y,Z and U^dag|b><b|U for U = H, H S^dag, I")
+        what = ("observables of local_snapshots / diagonalisers of process_state_with_shots differ from the model's "
+                "X,Y,Z and U^dag|b><b|U for U = H, H S^dag, I")
+        terms.append(f"CRot ({glist(obs_i, g_mat_int)}, {glist(projs, lambda pb: glist(pb, g_mat_int))})")
+        owners.append(("corr:exported-matrices", {"exported": ex}, what))
+        if not ok:
+            ctx.violation("corr:exported-matrices", {"exported": ex}, found_input=True, what=what)
 
     # ---- (C) device measurements
-    forms, dinfo = [], []
+    dinfo = []
+    COQ_ROWS = 400        # the Coq predicate is evaluated on the first rows; Python evaluates it on all rows
     for case, o in zip(device, res.get("device", [])):
         key = hashlib.sha1(json.dumps(case, sort_keys=True).encode()).hexdigest()[:12]
         fails, info = direct_device(case, o)
         dinfo.append(info)
         for f in fails:
-            ctx.violation("direct:device:" + key + ":" + f[:30], {"case": case, "failure": f, "info": info}, what=f)
-        forms.append(f"({gz(case['shots'])}, {gnat(len(case['wires']))}, {glist(o['bits'], lambda r: glist(r, gz))}, "
-                     f"{glist(o['recipes'], lambda r: glist(r, gz))})")
-    if forms:
-        bad = ctx.coq_eval_cases("form", "From PLV Require Import Num.ShadowsModel.", forms, "check_form", chunk=4)
-        for i in bad:
-            ctx.violation("corr:form:" + str(i), {"case": device[i]}, what="device bits/recipes do not have the documented form (well_formed)")
+            if f.startswith("shadow_expval(") and info.get("remap_suspect"):
+                # stable key: qml.shadow_expval on a tape whose operation wires are not 0,1,2,.. in order of first
+                # use (the simulator remaps the wires; ClassicalShadow.expval on the classical_shadow record of
+                # the same circuit is within the bound)
+                ctx.violation("direct:device:shadow_expval-after-wire-remap",
+                              {"case": case, "failure": f, "info": info,
+                               "shadow_expval": o["shadow_expval"], "from_record": o["shadow_expval_from_record"]},
+                              what="qml.shadow_expval is far from the exact expectation value on a circuit whose operation "
+                                   "wires are not in standard order, while ClassicalShadow.expval on the classical_shadow "
+                                   "record of the same circuit is within the bound: " + f)
+            else:
+                ctx.violation("direct:device:" + key + ":" + f[:30], {"case": case, "failure": f, "info": info}, what=f)
+        bt, rt = o["bits"][:COQ_ROWS], o["recipes"][:COQ_ROWS]
+        terms.append(f"CForm ({gz(min(case['shots'], COQ_ROWS))}, {gnat(len(case['wires']))}, "
+                     f"{glist(bt, lambda r: glist(r, gz))}, {glist(rt, lambda r: glist(r, gz))})")
+        owners.append(("corr:form:" + key, {"case": case},
+                       "device bits/recipes do not have the documented form (well_formed)"))
+
+    if terms:
+        # interleave so that the heavy 3-qubit enumerations are spread over the files
+        order = sorted(range(len(terms)), key=lambda i: -len(terms[i]))
+        nfiles = 4 if quick else 12
+        buckets = [[] for _ in range(nfiles)]
+        for j, i in enumerate(order):
+            buckets[j % nfiles].append(i)
+        flat = [i for b in buckets for i in b]
+        chunk = max(len(b) for b in buckets)
+        # pad buckets to equal size with the (cheap) last term so that chunking reproduces the buckets
+        padded, back = [], []
+        for b in buckets:
+            bb = b + [b[-1]] * (chunk - len(b)) if b else []
+            padded += [terms[i] for i in bb]; back += bb
+        bad = ctx.coq_eval_cases("cases", "From PLV Require Import Num.ShadowsModel.", padded, "check_any", chunk=chunk)
+        for i in sorted({back[j] for j in bad}):
+            k, rep, what = owners[i]
+            ctx.violation(k, rep, found_input=True, what=what)
+        ctx.coverage["correspondence_cases"] = len(terms)
 
     ctx.coverage.update({
         "evaluations": rows_total + sum(c["shots"] for c in device),
